@@ -87,9 +87,10 @@ VARIABLES
   vis,       \* objects of the pack visible in the store
   err, steps,
   cur, visited,    \* random access walk
+  pass, cnt,       \* 1: ingestion; 2: _complete_pack's validation of the installed pack.  cnt: entries the header declares
   reported
 
-vars == <<case, pc, i, pofs, pref, fulls, todo, extq, extdone, yielded, vis, err, steps, cur, visited, reported>>
+vars == <<case, pc, i, pofs, pref, fulls, todo, extq, extdone, yielded, vis, err, steps, cur, visited, pass, cnt, reported>>
 
 M == ModeRec(case.mode)
 N == case.n
@@ -99,6 +100,7 @@ Arg(j) == case.e[j][2]
 SId == case.n + 1
 MId == case.n + 2
 Malformed(j) == case.szat = j \/ (Kind(j) = 1 /\ Arg(j) = 0)
+ExtUsed == \E k \in 1..Len(yielded) : yielded[k][2] = SId
 
 Init ==
   /\ \E m \in Modes, n \in MinN..MaxN :
@@ -110,11 +112,12 @@ Init ==
   /\ fulls = <<>> /\ todo = <<>> /\ extq = <<>> /\ extdone = FALSE
   /\ yielded = <<>> /\ vis = {} /\ err = "" /\ steps = 0
   /\ cur = 0 /\ visited = {} /\ reported = FALSE
+  /\ pass = 1 /\ cnt = case.n + case.hdr
 
 FailCore(label) ==
   /\ pc' = "error" /\ err' = label
   /\ vis' = IF M.atomic THEN {} ELSE vis
-  /\ UNCHANGED <<i, pofs, pref, fulls, todo, extq, extdone, yielded, cur>>
+  /\ UNCHANGED <<i, pofs, pref, fulls, todo, extq, extdone, yielded, cur, pass, cnt>>
 Fail(label) == FailCore(label) /\ UNCHANGED visited
 
 (* PackData.__init__ / Pack.check_length_and_checksum / PackData.check() before anything is read *)
@@ -123,19 +126,19 @@ Check ==
   /\ IF M.resolve = "random"
        THEN IF Count # N THEN Fail("length")       \* assert len(index) == len(data)
             ELSE /\ pc' = "rwalk" /\ cur' = case.start
-                 /\ UNCHANGED <<i, pofs, pref, fulls, todo, extq, extdone, yielded, vis, err, visited>>
+                 /\ UNCHANGED <<i, pofs, pref, fulls, todo, extq, extdone, yielded, vis, err, visited, pass, cnt>>
        ELSE IF ~M.stream /\ M.verify /\ case.tr = 0 THEN Fail("checksum")
             ELSE /\ pc' = "scan"
-                 /\ UNCHANGED <<i, pofs, pref, fulls, todo, extq, extdone, yielded, vis, err, cur, visited>>
+                 /\ UNCHANGED <<i, pofs, pref, fulls, todo, extq, extdone, yielded, vis, err, cur, visited, pass, cnt>>
 
 (* one entry read and recorded, or the end of the declared entries *)
 Scan ==
   /\ pc = "scan"
-  /\ IF i > Count
-       THEN IF M.stream /\ Count < N THEN Fail("checksum")       \* the 20 bytes that follow are not the trailer
+  /\ IF i > cnt
+       THEN IF M.stream /\ cnt < N THEN Fail("checksum")       \* the 20 bytes that follow are not the trailer
             ELSE IF M.stream /\ case.tr = 0 THEN Fail("checksum")
             ELSE /\ pc' = IF M.resolve = "none" THEN "done" ELSE "walkfull"
-                 /\ UNCHANGED <<i, pofs, pref, fulls, todo, extq, extdone, yielded, vis, err, cur, visited>>
+                 /\ UNCHANGED <<i, pofs, pref, fulls, todo, extq, extdone, yielded, vis, err, cur, visited, pass, cnt>>
        ELSE IF i > N THEN Fail("garbage")                        \* the trailer is parsed as an entry
        ELSE IF Malformed(i) THEN Fail(IF case.szat = i THEN "zlib" ELSE "ofs0")
        ELSE IF M.nodelta /\ Kind(i) # 0 THEN Fail("assert-delta")
@@ -144,26 +147,26 @@ Scan ==
             /\ pofs' = IF Kind(i) = 1 THEN [pofs EXCEPT ![Arg(i)] = Append(@, i)] ELSE pofs
             /\ pref' = IF Kind(i) = 2 THEN [pref EXCEPT ![Arg(i)] = Append(@, i)] ELSE pref
             /\ yielded' = IF M.resolve = "none" THEN Append(yielded, <<i, 0>>) ELSE yielded
-            /\ UNCHANGED <<pc, todo, extq, extdone, vis, err, cur, visited>>
+            /\ UNCHANGED <<pc, todo, extq, extdone, vis, err, cur, visited, pass, cnt>>
 
 (* _follow_chain: pop, resolve, yield, push whatever was waiting for this offset / this name *)
 ChainStep ==
   /\ pc \in {"walkfull", "walkref"} /\ todo # <<>>
   /\ LET t == todo[Len(todo)]
          unblocked == pofs[t.e] \o pref[t.e]
-     IN /\ yielded' = Append(yielded, <<t.e, t.via>>)
+     IN /\ yielded' = IF pass = 1 THEN Append(yielded, <<t.e, t.via>>) ELSE yielded
         /\ pofs' = [pofs EXCEPT ![t.e] = <<>>]
         /\ pref' = [pref EXCEPT ![t.e] = <<>>]
         /\ todo' = SubSeq(todo, 1, Len(todo) - 1) \o [k \in 1..Len(unblocked) |-> [e |-> unblocked[k], via |-> t.e]]
-        /\ vis' = IF M.atomic THEN vis ELSE vis \cup {t.e}
-  /\ UNCHANGED <<pc, i, fulls, extq, extdone, err, cur, visited>>
+        /\ vis' = IF M.atomic \/ pass = 2 THEN vis ELSE vis \cup {t.e}
+  /\ UNCHANGED <<pc, i, fulls, extq, extdone, err, cur, visited, pass, cnt>>
 
 WalkFull ==
   /\ pc = "walkfull" /\ todo = <<>>
   /\ IF fulls # <<>>
        THEN /\ todo' = <<[e |-> Head(fulls), via |-> 0]>> /\ fulls' = Tail(fulls) /\ UNCHANGED pc
        ELSE /\ pc' = "walkref" /\ UNCHANGED <<todo, fulls>>
-  /\ UNCHANGED <<i, pofs, pref, extq, extdone, yielded, vis, err, cur, visited>>
+  /\ UNCHANGED <<i, pofs, pref, extq, extdone, yielded, vis, err, cur, visited, pass, cnt>>
 
 (* _walk_ref_chains: the only name the store can resolve is S *)
 WalkRef ==
@@ -177,15 +180,21 @@ WalkRef ==
        THEN /\ todo' = <<[e |-> Head(extq), via |-> SId]>> /\ extq' = Tail(extq)
             /\ UNCHANGED <<pc, pref, extdone>>
        ELSE /\ pc' = "final" /\ UNCHANGED <<todo, extq, pref, extdone>>
-  /\ UNCHANGED <<i, pofs, fulls, yielded, vis, err, cur, visited>>
+  /\ UNCHANGED <<i, pofs, fulls, yielded, vis, err, cur, visited, pass, cnt>>
 
 (* _ensure_no_pending, then `assert not self._pending_ofs`, then the caller installs / returns *)
 Final ==
   /\ pc = "final"
   /\ IF \E k \in DOMAIN pref : pref[k] # <<>> THEN Fail("unresolved")
      ELSE IF \E k \in DOMAIN pofs : pofs[k] # <<>> THEN Fail("assert-pending-ofs")
-     ELSE /\ pc' = "done" /\ vis' = {yielded[k][1] : k \in 1..Len(yielded)}
-          /\ UNCHANGED <<i, pofs, pref, fulls, todo, extq, extdone, yielded, err, cur, visited>>
+     ELSE IF pass = 1 /\ case.mode = 2 /\ ExtUsed /\ cnt < N
+       THEN \* extend_pack appended the base after the undeclared rest of the file and raised the count by one:
+            \* the validation of the installed pack reads that rest as the next entry
+            /\ pass' = 2 /\ cnt' = cnt + 1 /\ pc' = "scan" /\ i' = 1
+            /\ fulls' = <<>> /\ todo' = <<>> /\ extq' = <<>> /\ extdone' = FALSE
+            /\ UNCHANGED <<pofs, pref, yielded, vis, err, cur, visited>>
+       ELSE /\ pc' = "done" /\ vis' = {yielded[k][1] : k \in 1..Len(yielded)}
+            /\ UNCHANGED <<i, pofs, pref, fulls, todo, extq, extdone, yielded, err, cur, visited, pass, cnt>>
 
 (* Pack.resolve_object: walk from the requested entry towards a non-delta base *)
 RStep ==
@@ -194,17 +203,17 @@ RStep ==
   /\ IF Malformed(cur) THEN FailCore(IF case.szat = cur THEN "zlib" ELSE "ofs0")
      ELSE IF Kind(cur) = 0
        THEN /\ pc' = "done" /\ vis' = {case.start} /\ yielded' = <<<<case.start, cur>>>>
-            /\ UNCHANGED <<i, pofs, pref, fulls, todo, extq, extdone, err, cur>>
+            /\ UNCHANGED <<i, pofs, pref, fulls, todo, extq, extdone, err, cur, pass, cnt>>
      ELSE IF Kind(cur) = 1
        THEN IF Arg(cur) >= 1
               THEN /\ cur' = Arg(cur)
-                   /\ UNCHANGED <<pc, i, pofs, pref, fulls, todo, extq, extdone, yielded, vis, err>>
+                   /\ UNCHANGED <<pc, i, pofs, pref, fulls, todo, extq, extdone, yielded, vis, err, pass, cnt>>
               ELSE FailCore(IF Arg(cur) = -1 THEN "garbage" ELSE "assert-offset")
      ELSE IF Arg(cur) > N THEN FailCore("keyerror")                 \* not in the index, no resolve_ext_ref
      ELSE IF Arg(cur) = cur THEN FailCore("unresolved-self")        \* "object is based on itself"
      ELSE IF CycleGuard /\ Arg(cur) \in visited THEN FailCore("cycle")
      ELSE /\ cur' = Arg(cur)
-          /\ UNCHANGED <<pc, i, pofs, pref, fulls, todo, extq, extdone, yielded, vis, err>>
+          /\ UNCHANGED <<pc, i, pofs, pref, fulls, todo, extq, extdone, yielded, vis, err, pass, cnt>>
 
 Step == Check \/ Scan \/ ChainStep \/ WalkFull \/ WalkRef \/ Final \/ RStep
 
@@ -217,7 +226,7 @@ Report ==
   /\ PrintT(ToString(<<"PA", case.mode, case.n, Flat(case.n), case.hdr, case.tr, case.szat, case.szdir, case.start,
                        IF pc = "done" THEN 1 ELSE 0, Mask(vis), Len(yielded), err>>))
   /\ reported' = TRUE
-  /\ UNCHANGED <<case, pc, i, pofs, pref, fulls, todo, extq, extdone, yielded, vis, err, steps, cur, visited>>
+  /\ UNCHANGED <<case, pc, i, pofs, pref, fulls, todo, extq, extdone, yielded, vis, err, steps, cur, visited, pass, cnt>>
 
 Next == \/ Step /\ steps' = steps + 1 /\ UNCHANGED <<case, reported>>
         \/ Report
@@ -226,7 +235,7 @@ Spec == Init /\ [][Next]_vars
 
 (* ----------------------------------------------------------------------- *)
 (* properties                                                               *)
-StepBound == 4 * MaxN + 8
+StepBound == 8 * MaxN + 16
 Terminates == /\ steps <= StepBound
               /\ pc \notin {"done", "error"} => ENABLED Step
 
